@@ -121,7 +121,7 @@ def server_case(rng, stats, length, pid):
     sim = ServerSim()
     ps = PeerStream(rng, stats)
     cs = rng.choice([1, 2, 127, 128, 4096, 4096, 65535, (1 << 31) - 1])
-    win = rng.choice([1, 100, 2500000, M32 - 1])
+    win = rng.choice([0, 1, 100, 2500000, M32 - 1])
     ops = [f"srv.new 0 {cs} {win} {rng.choice([0, 2500000, M32 - 1])} {rng.below(2)} {hexb(rng.choice([b'FMS/3,0,1,1233', b'', 'é'.encode()]))}"]
 
     def pick_sid():
@@ -172,6 +172,17 @@ def server_case(rng, stats, length, pid):
                 if depth >= 5:
                     ops.append(f"srv.accept {rand_now(rng, st)} {rid}"); sim.out.pop(rid); sim.done.append(rid)
                     sim.streams[sid] = "publishing" if kind == "pub" else "playing"
+        if depth >= 5 and rng.chance(1, 4):
+            # a second connection request that the application rejects: the accepted connection and its streams stand
+            feed(ps.msg(20, 0, cmd_body("connect", 3.0, ("o", [(b"app", s(rng.choice([b"other", app])))]), [])))
+            rid2 = sim.next_req; sim.next_req += 1
+            ops.append(f"srv.reject {rand_now(rng, st)} {rid2} {hexb(b'NetConnection.Connect.Rejected')} -"); sim.done.append(rid2)
+            for _ in range(rng.range(1, 2)):
+                feed(ps.msg(rng.choice([8, 9]), sid, rng.bytes(rng.choice([1, 5, 200]))))
+            if rng.chance(1, 2):
+                feed(ps.msg(20, sid, cmd_body("play", 0.0, ("z",), [s(rng.choice(KEYS))])))
+                sim.out[sim.next_req] = ("play", sid); sim.next_req += 1
+            bump(stats, "srv_rejected_second_connect")
         bump(stats, f"srv_warm_depth_{depth}")
 
     for _ in range(length):
@@ -267,7 +278,7 @@ def server_case(rng, stats, length, pid):
             feed(ps.msg(rng.choice([20, 20, 17]), rng.choice([0, 1]), (b"\\x00" if False else b"") + body))
         elif a == 14:   # acknowledgement / window ack / set peer bandwidth / abort
             typ = rng.choice([3, 5, 5, 6, 2])
-            body = rng.choice([rng.below(M32), 1, 10, 100, M32 - 1]).to_bytes(4, "big") + (bytes([rng.below(4)]) if typ == 6 else b"")
+            body = rng.choice([rng.below(M32), 0, 1, 10, 100, M32 - 1]).to_bytes(4, "big") + (bytes([rng.below(4)]) if typ == 6 else b"")
             if rng.chance(1, 10): body = body[:rng.below(4)]
             feed(ps.msg(typ, 0, body))
         elif a == 15:   # set chunk size from the peer
@@ -338,7 +349,7 @@ def client_case(rng, stats, length, pid):
     sim = ClientSim()
     ps = PeerStream(rng, stats)
     cs = rng.choice([1, 2, 127, 128, 4096, 4096, 65535, (1 << 31) - 1])
-    ops = [f"cli.new {cs} {rng.choice([1, 100, 2500000, M32 - 1])} {rng.choice([0, 2000, M32 - 1])} {hexb(rng.choice([b'WIN 23,0,0,207', b'']))} {rng.choice(['_', hexb(b'rtmp://h/app')])}"]
+    ops = [f"cli.new {cs} {rng.choice([0, 1, 100, 2500000, M32 - 1])} {rng.choice([0, 2000, M32 - 1])} {hexb(rng.choice([b'WIN 23,0,0,207', b'']))} {rng.choice(['_', hexb(b'rtmp://h/app')])}"]
 
     def feed(data):
         if pid == "C03" and data and rng.chance(1, 5):
@@ -485,7 +496,7 @@ def client_case(rng, stats, length, pid):
             feed(ps.msg(4, 0, code.to_bytes(2, "big") + rng.below(M32).to_bytes(4, "big")))
         elif a == 19:           # ack / window / bandwidth / abort / chunk size
             typ = rng.choice([3, 5, 5, 6, 2, 1])
-            n = rng.choice([rng.below(M32), 1, 10, 100, 4096, M32 - 1]) if typ != 1 else rng.choice([1, 128, 4096, 65536, 0, 0x80000000])
+            n = rng.choice([rng.below(M32), 0, 1, 10, 100, 4096, M32 - 1]) if typ != 1 else rng.choice([1, 128, 4096, 65536, 0, 0x80000000])
             feed(ps.msg(typ, 0, n.to_bytes(4, "big") + (bytes([rng.below(4)]) if typ == 6 else b"")))
         elif a == 20:           # unknown command / unknown type
             if rng.chance(1, 2):
